@@ -4,7 +4,7 @@
 
    A case is (problem (status (snap ...))); a snap is
      (kind lvl (trail) (model) (reasons) (assumptions) (conflict) (constraints) done reskind (learnt) unit (props) newlvl
-      nborig cp)
+      nborig cp restarts)
    where a constraint is (card w1 l1 w2 l2 ...) in the order of the Go clause, a missing reason is ().
      kind 0: conflict handed to learnClause.     The state must meet the hypotheses of the theorems of
              Properties/C06l.v (state_okb, confl_okb) and learnClause must have returned what Model.Learn.learn_clause
@@ -60,14 +60,14 @@ Record snap := Snap {
   sn_kind : Z; sn_lvl : Z; sn_trail : list Z; sn_model : list Z; sn_reasons : list (option pbc);
   sn_assum : list bool; sn_confl : option pbc; sn_constrs : list pbc;
   sn_done : bool; sn_reskind : Z; sn_learnt : list Z; sn_unit : Z; sn_props : list Z; sn_newlvl : Z;
-  sn_norig : Z; sn_cp : bool }.
+  sn_norig : Z; sn_cp : bool; sn_restarts : Z }.
 
 Definition dsnap (s : sx) : option snap :=
   match s with
-  | L [I kind; I lvl; tr; md; L rs; asm; cf; L cs; dn; I rk; lr; I u; pr; I nl; I no; cpf] =>
+  | L [I kind; I lvl; tr; md; L rs; asm; cf; L cs; dn; I rk; lr; I u; pr; I nl; I no; cpf; I nrst] =>
     match dZs tr, dZs md, omap dreason rs, dbools asm, dreason cf, omap dconstr cs, dbool dn, dZs lr, dZs pr, dbool cpf with
     | Some tr', Some md', Some rs', Some asm', Some cf', Some cs', Some dn', Some lr', Some pr', Some cp' =>
-      Some (Snap kind lvl (dedup_trail [] tr') md' rs' asm' cf' cs' dn' rk lr' u pr' nl no cp')
+      Some (Snap kind lvl (dedup_trail [] tr') md' rs' asm' cf' cs' dn' rk lr' u pr' nl no cp' nrst)
     | _, _, _, _, _, _, _, _, _, _ => None
     end
   | _ => None
